@@ -572,6 +572,7 @@ class Parser:
             directives=self.parse_directives(False),
             selection_set=self.parse_selection_set(),
             loc=self._loc(start),
+            source=self._source,
         )
 
     def parse_operation_type(self) -> str:
